@@ -461,6 +461,9 @@ type AllocateOptions struct {
 
 // AllocateWithOptions allocates a prefix with additional options for DHCPv6.
 func (p *PoolAllocator) AllocateWithOptions(ctx context.Context, opts AllocateOptions) (*net.IPNet, error) {
+	// A failed store write must only roll back an allocation made by this call
+	existed := p.allocator.Lookup(opts.SubscriberID) != nil
+
 	prefix, err := p.allocator.Allocate(opts.SubscriberID)
 	if err != nil {
 		return nil, err
@@ -479,8 +482,10 @@ func (p *PoolAllocator) AllocateWithOptions(ctx context.Context, opts AllocateOp
 	}
 
 	if err := p.store.SaveAllocation(ctx, record); err != nil {
-		// Rollback allocator state
-		p.allocator.Release(opts.SubscriberID)
+		// Rollback allocator state (an allocation that existed before this call stays)
+		if !existed {
+			p.allocator.Release(opts.SubscriberID)
+		}
 		return nil, fmt.Errorf("failed to persist allocation: %w", err)
 	}
 
